@@ -11,7 +11,9 @@ package moss
 import (
 	"encoding/binary"
 	"encoding/json"
+	"errors"
 	"fmt"
+	"io"
 	"io/ioutil"
 	"os"
 	"path"
@@ -446,15 +448,31 @@ func (s *Store) persistHeader(file File) error {
 	return nil
 }
 
+// errIncompleteHeader is returned by checkHeader for a file that was
+// created but whose header was not (completely) written, as left by
+// a crash right after the creation of a data file.
+var errIncompleteHeader = errors.New("store: incomplete header")
+
 func checkHeader(file File) error {
 	buf := make([]byte, StorePageSize)
 
 	n, err := file.ReadAt(buf, int64(0))
+	if err == io.EOF || (err == nil && n != len(buf)) {
+		return errIncompleteHeader // The file ends within the header.
+	}
 	if err != nil {
 		return err
 	}
-	if n != len(buf) {
-		return fmt.Errorf("store: readHeader too short")
+
+	allZero := true
+	for _, b := range buf {
+		if b != 0 {
+			allZero = false
+			break
+		}
+	}
+	if allZero {
+		return errIncompleteHeader // The header never reached the disk.
 	}
 
 	lines := strings.Split(string(buf), "\n")
@@ -608,6 +626,10 @@ func openStore(dir string, options StoreOptions) (*Store, error) {
 			" files found: %q", fnames)
 	}
 
+	// onlyIncomplete stays true while every candidate file so far has
+	// turned out to be a file that never held a complete footer.
+	onlyIncomplete := true
+
 	for i := len(fnames) - 1; i >= 0; i-- {
 		var flag int
 		var perm os.FileMode
@@ -621,6 +643,7 @@ func openStore(dir string, options StoreOptions) (*Store, error) {
 
 		file, err := options.OpenFile(path.Join(dir, fnames[i]), flag, perm)
 		if err != nil {
+			onlyIncomplete = false
 			continue
 		}
 
@@ -628,6 +651,9 @@ func openStore(dir string, options StoreOptions) (*Store, error) {
 		if err != nil {
 			// For example, a newest file that a crash left without a
 			// complete header; fall back on the next older file.
+			if err != errIncompleteHeader {
+				onlyIncomplete = false
+			}
 			file.Close()
 			continue
 		}
@@ -635,6 +661,9 @@ func openStore(dir string, options StoreOptions) (*Store, error) {
 		// Will recursively restore ChildFooters of childCollections
 		footer, err := ReadFooter(&options, file) // Footer owns file on success.
 		if err != nil {
+			if err != ErrNoValidFooter {
+				onlyIncomplete = false
+			}
 			file.Close()
 			continue
 		}
@@ -658,6 +687,29 @@ func openStore(dir string, options StoreOptions) (*Store, error) {
 			options:      &options,
 			refs:         1,
 			footer:       footer,
+			nextFNameSeq: maxFNameSeq + 1,
+			histograms:   histograms,
+			fileRefMap:   make(map[string]*FileRef),
+			abortCh:      make(chan struct{}),
+		}, nil
+	}
+
+	if onlyIncomplete {
+		// None of the files ever held a complete footer, so nothing was
+		// ever persisted durably: a crash during the very first
+		// persistence.  That is an empty store, whose next data file
+		// gets a higher sequence number.
+		emptyFooter := &Footer{
+			refs:         1,
+			ss:           &segmentStack{options: &options.CollectionOptions},
+			ChildFooters: make(map[string]*Footer),
+		}
+
+		return &Store{
+			dir:          dir,
+			options:      &options,
+			refs:         1,
+			footer:       emptyFooter,
 			nextFNameSeq: maxFNameSeq + 1,
 			histograms:   histograms,
 			fileRefMap:   make(map[string]*FileRef),
